@@ -716,12 +716,14 @@ def inner_join(operands):
         comps = [x for x in base.comps if x[2] == ID] + [x for x in rel.comps if x[2] == ID and x[0] not in a] + \
                 [x for x in base.comps if x[2] != ID] + [x for x in rel.comps if x[2] != ID]
         rows = []
+        index = {}                              # datapoints of the right operand by the values of the common identifiers
+        for r2 in rel.rows:
+            index.setdefault(tuple(r2[i] for i in common), []).append(r2)
         for r1 in base.rows:
-            for r2 in rel.rows:
-                if all(r1[i] == r2[i] for i in common):
-                    row = dict(r2)
-                    row.update(r1)
-                    rows.append(row)
+            for r2 in index.get(tuple(r1[i] for i in common), ()):
+                row = dict(r2)
+                row.update(r1)
+                rows.append(row)
         base = Rel(comps, rows)
     return base
 
@@ -746,9 +748,12 @@ def ds_binary(op, a, b):
             t = typeof(("bin", op, ("name", "l"), ("name", "r")), [["l", x[1], ME], ["r", y[1], ME]])
             comps.append([x[0], t, ME])
         rows = []
+        index = {}
+        for r2 in b.rows:
+            index.setdefault(tuple(r2[i] for i in common), []).append(r2)
         for r1 in a.rows:
-            for r2 in b.rows:
-                if all(r1[i] == r2[i] for i in common):
+            for r2 in index.get(tuple(r1[i] for i in common), ()):
+                if True:
                     src = r1 if big is a else r2
                     row = {i: src[i] for i in big.ids()}
                     for x in ma:
